@@ -6,14 +6,14 @@ package types
 
 //@ func GetDiscountByTime
 //@ props C07
-//@ theory coins keys pricing
+//@ theory keys pricing
 //@ loop 0 invariant seen: 0 <= iter && iter <= len(pricing.PromotionsByTime)
 //@ loop 0 invariant none_before: forall j Int :: 0 <= j && j < iter ==> !inWindow(pricing.PromotionsByTime[j], time)
 //@ ensures result_is_dT: result == discountByTime(pricing, time)
 
 //@ func GetDiscountByVolume
 //@ props C07
-//@ theory coins keys pricing
+//@ theory keys pricing
 //@ loop 0 invariant seen: 0 <= iter && iter <= len(pricing.PromotionsByVolume)
 //@ loop 0 invariant all_le: forall j Int :: 0 <= j && j < iter ==> volAt(pricing, j) <= volume
 //@ loop 0 invariant not_past_end: len(pricing.PromotionsByVolume) == 0 || iter < len(pricing.PromotionsByVolume)
@@ -21,7 +21,7 @@ package types
 
 //@ func ValidatePricing
 //@ props C07 C15
-//@ theory coins keys pricing
+//@ theory keys pricing
 //@ loop 0 invariant seen: 0 <= iter && iter <= len(pricing.PromotionsByTime)
 //@ loop 0 invariant ok_so_far: forall j Int :: 0 <= j && j < iter ==> windowOK(pricing, j)
 //@ loop 1 invariant seen: 0 <= iter && iter <= len(pricing.PromotionsByVolume)
